@@ -256,7 +256,9 @@ META["C06"] = dict(
     engine="sampling", level="model_checking",
     text=("TLC checks for every weight vector (<= 3 targets, resolution R = 16/32) that Pick chooses target i on exactly w_i draws; "
           "the real State::sample_state is enumerated over all 2^23 values of the draw for each listed vector and the per-target "
-          "counts and bucket bounds are validated against the same Pick by the trace spec (exhaustive, not statistical)"),
+          "counts and bucket bounds are validated against the same Pick by the trace spec (exhaustive, not statistical); nested transitions "
+          "(CounterZero raised by entering the target) are driven on the real framework over a 256 x 256 grid of word pairs: the inner "
+          "transition must be taken on exactly its own weight of the second draw whatever the first was (SamplingTrace!ChainGood)"),
     note="trusted: TLC, the counting RNG; the vectors enumerated on the code are a finite list (dyadic grid, f32 corners, non-dyadic, seeded random)",
     design_ref="DESIGN.md section 6/C06",
     technique="TLA+ spec of the sampling function checked by TLC over all vectors; complete enumeration of the implementation's draw space validated against the spec")
@@ -288,9 +290,10 @@ META["C12"] = dict(
     engine="validation", level="model_checking",
     text=("Validation.tla states the well-formedness judgement from the property text and the documented parameter domains over an abstract "
           "domain of machines built from adversarial value classes; TLC enumerates the whole domain slice by slice (fractions x state counts, "
-          "transition vectors with out-of-range / duplicate targets and boundary sums, 11 distribution families x parameter corners x 9 positions) "
+          "transition vectors with out-of-range / duplicate targets and boundary sums, 11 distribution families x parameter corners x 9 positions, and a context bare / full / last that the judgement must ignore: "
+          "every other optional field populated, judged vector on a rotating event, judged state last) "
           "and emits every case; each case is concretised with three bit patterns and fed to Machine::validate, Machine::new, serialize->from_str "
-          "and Framework::new; TLC judges every record: accepted => WellFormed, paths agree, accepted machines build and run"),
+          "and Framework::new; TLC judges every record: accepted => WellFormed, paths agree, accepted machines build and run (under a CPU-time watchdog)"),
     note="trusted: TLC, the class->bit-pattern table of the harness; exhaustive over the abstract domain, 3 concretisations per class",
     design_ref="DESIGN.md section 6/C12",
     technique="TLA+ judgement spec enumerated exhaustively by TLC; differential run of all validation paths of the real code, records validated against the spec")
@@ -308,10 +311,13 @@ META["C13"] = dict(
 
 META["C11"] = dict(
     engine="codec", level="exploration",
-    text=("Codec.tla states the parsing pipeline as stages with a memory account and TLC checks Ok => validated and the bomb-independent "
-          "memory bound for every abstract input; the byte-level codec is outside the family, so the claim is exploration: generated valid "
+    text=("Codec.tla states both parsers as step-wise pipelines with a memory account in every state (the v2 inflate stage is the read loop with "
+          "arbitrary short reads) and TLC checks Ok => validated, no buffer overrun, the bomb-independent memory bound, round trip for every "
+          "chunking, rejection of over-long streams and termination for every abstract input; the pinned commit's single read() is kept as a "
+          "variant that must violate RoundTrip; the byte-level codec is outside the family, so the claim is exploration: generated valid "
           "machines up to the size limit are round-tripped on the real code and hostile strings are fed to both parsers under a counting "
-          "allocator, and TLC judges every record (CodecTrace)"),
+          "allocator, each followed by a parse of a fixed valid string on the same thread (parsing depends on its input alone), "
+          "and TLC judges every record (CodecTrace)"),
     note="exploration level: bincode / zlib / base64 fidelity is sampled, not modelled; trusted: the counting allocator, TLC",
     design_ref="DESIGN.md section 6/C11 and section 8",
     technique="TLA+ pipeline spec with memory account (TLC); generated round trips and hostile inputs on the real parsers, records judged by a TLA+ trace spec")
